@@ -129,7 +129,7 @@ def run(chk, model_ok=True):
         s = sessions.Sess(env, peer, rng)
         for _ in range(600 if quick else 32000):
             k = rng.randrange(4)
-            good = lambda: sessions.rand_oid_text(rng)
+            good = lambda: sessions.rand_oid_text(rng, long=rng.random() < 0.08)
             badt = lambda: sessions.bad_oid_text(rng)
             if k == 0:
                 rec = s.send("get", good() if rng.random() < 0.5 else badt())
@@ -154,7 +154,74 @@ def run(chk, model_ok=True):
             why = c03.check_request(s, rec, {(0, 0)})
             if why:
                 fail(s.line()[:2000], str(rec["result"]), f"{peer.label} {rec['op']}({str(rec['arg'])[:80]}): {why}")
+    # the Python clients in front of the socket must hand the text through untouched: what they accept, refuse and
+    # send is judged like above (texts that only a lenient integer parser would accept are among the inputs)
+    ODD = ["1.3.6.1_0", "1.3. 6", "1.3.6\n", " 1.3.6", "1.3.6 ", "1.3.-0", "1.3.6.-0.1", "1.3.\u0663", "\uff11.\uff13.6", "1.3.0x10", "1.3.1e2",
+           "1.3.6.1__0", "1.3.6.+1", "1.3.06", "1.3.6.00", "01.3.6", "1.3.6.4294967296", "1.3.6.4294967299", "1.3.6.4294967295"]
+    from gufo.snmp import SnmpVersion
+    from gufo.snmp.sync_client import SnmpSession as SyncSession
+    n_cli = 0
+    peer = e2e.Peer("v2c")
+    conv = e2e.Conv(peer, env)
+    seen = []
+
+    def script(op, req):
+        seen.append(req)
+        return [peer.response(req, [ber.varbind(tuple(v[0]), ber.INT(1)) for v in req["varbinds"]])]
+    sess = SyncSession("127.0.0.1", port=env.agent.port, community="public", version=SnmpVersion.v2c, timeout=0.05)
+    sess._sock = e2e.SockShim(conv, script)
+
+    def judge_client(mode, text, r, sent):
+        den = c03.text_denotes(text)
+        if den is None:
+            if r[0] == "ok" or sent:
+                return f"{mode} client accepted the malformed OID text {text!r}" + (f" and sent {sent[0]}" if sent else "")
+            if r[1] not in ("ValueError", "SnmpDecodeError"):
+                # (InvalidData surfaces as SnmpDecodeError from get / get_many, as ValueError from GetIter)
+                return f"{mode} client raised {r[1]} for the malformed OID text {text!r}"
+            return None
+        if r[0] != "ok":
+            return f"{mode} client refused the valid OID text {text!r}: {r[1]}"
+        if not sent or list(sent[0]) != den:
+            return f"{mode} client sent {sent[:1]} for the text {text!r} which denotes {den}"
+        return None
+    texts = ODD + [sessions.rand_oid_text(rng) for _ in range(20 if quick else 400)] + [sessions.bad_oid_text(rng) for _ in range(10 if quick else 200)]
+    for t in texts:
+        for call in ("get", "get_many"):
+            del seen[:]
+            r = e2e.ncall((lambda: sess.get(t)) if call == "get" else (lambda: sess.get_many(["1.3.6.1", t])))
+            n_cli += 1
+            sent = [tuple(v[0]) for q in seen for v in q.get("varbinds", [])]
+            if call == "get_many":
+                sent = sent[1:] if len(sent) > 1 else ([] if c03.text_denotes(t) is None else sent)
+            why = judge_client("sync", t, r, sent)
+            if why:
+                fail("oidstr " + t.encode().hex(), str(r)[:80], why)
+
+    def async_get(t):
+        got = []
+
+        def plan(dg):
+            req = peer.decode(dg)
+            got.append(req)
+            return [peer.response(req, [ber.varbind(tuple(v[0]), ber.INT(1)) for v in req["varbinds"]])]
+
+        async def main(port):
+            from gufo.snmp.async_client import SnmpSession
+            async with SnmpSession("127.0.0.1", port=port, community="public", version=SnmpVersion.v2c, timeout=0.2) as sx:
+                return await sx.get(t)
+        r, _ = e2e.run_async(main, plan)
+        if r[0] == "exc" and r[1].startswith("PySnmp"):
+            r = ("exc", r[1][2:], r[2])
+        return r, [tuple(v[0]) for q in got for v in q.get("varbinds", [])]
+    for t in ODD + [sessions.rand_oid_text(rng) for _ in range(6 if quick else 100)]:
+        r, sent = async_get(t)
+        n_cli += 1
+        why = judge_client("async", t, r, sent)
+        if why:
+            fail("oidstr " + t.encode().hex(), str(r)[:80], why)
     chk.coverage["e2e_calls"] = n_e2e
+    chk.coverage["python_client_calls"] = n_cli
     st.diff("C08 oid text")
     st2.diff("C08 print-back")
     st.coverage(
